@@ -271,7 +271,7 @@ def model(A, fn, frame, b, t, st, name):
             A.require(st, fn, b, "index", "index within bounds", [None])
             return ret(None)
         ln = s[1]
-        is_str = "str" in n or seq_kind((t["args"][0].get("p") or {}).get("ty", "")) in ("str", "string")
+        is_str = seq_kind((t["args"][0].get("p") or {}).get("ty", "")) in ("str", "string")
         skey = A.recv_key(st, frame, t, 0)
         if ix[0] == "int":
             A.require(st, fn, b, "index", "index < len", [ix[1].sub(ln).addc(1)])
